@@ -1512,8 +1512,9 @@ class Compiler:
 
         body = []
 
-        # Track the blocks of this translation
-        self._translations.append(set())
+        # Track the blocks of this translation (in document order: this
+        # is the order of the mapping passed to the translation function)
+        self._translations.append([])
 
         # Prepare new stream
         append = identifier("append", id(node))
@@ -1788,7 +1789,7 @@ class Compiler:
             raise TranslationError(
                 "Duplicate translation name: %s.", node.name)
 
-        self._translations[-1].add(node.name)
+        self._translations[-1].append(node.name)
         body = []
 
         # prepare new stream
